@@ -158,3 +158,40 @@ def gen_traces(n: int, seed: int, policies=POLICIES, flavours=(("mixed", 0.5), (
     with mp.get_context("fork").Pool(procs or common.NCPU) as pool:
         out = pool.map(_chunk, jobs)
     return [tr for ch in out for tr in ch]
+
+
+def long_run(seed: int, tid: int, ticks: int = 13000):
+    """A long simulation (thousands of ticks) under the priority policy with long write-outs that are in progress most of the time:
+    periodic or tick-count-dependent behaviour of the executor is only visible in runs of this length.  Sparse, obs mode."""
+    common.import_repo()
+    from eudoxia.workload import Pipeline
+    from eudoxia.workload.pipeline import Segment
+    from eudoxia.utils import Priority
+    rng = random.Random(seed)
+    tps = 10
+    cpus = rng.choice([3, 4, 6])
+    ram = rng.choice([2000, 4000])            # 10 % = 200..400 GB per container: write-outs of 100..200 ticks
+    arrivals = {}
+    t = 0
+    k = 0
+    while t < ticks - 400:
+        for _ in range(cpus):
+            k += 1
+            p = Pipeline(f"L{k}", rng.choice([Priority.BATCH_PIPELINE, Priority.INTERACTIVE]))
+            a = p.new_operator()
+            a.add_segment(Segment(baseline_cpu_seconds=rng.choice([2.0, 3.0, 5.0]), cpu_scaling="const", memory_gb=1.0, storage_read_gb=0.0))
+            b = p.new_operator([a])
+            b.add_segment(Segment(baseline_cpu_seconds=rng.choice([4.0, 9.0]), cpu_scaling="const", memory_gb=1.0, storage_read_gb=0.0))
+            arrivals.setdefault(t, []).append(p)
+        for j in range(rng.choice([1, 2])):
+            k += 1
+            q = Pipeline(f"L{k}", Priority.QUERY)
+            o = q.new_operator()
+            o.add_segment(Segment(baseline_cpu_seconds=rng.choice([1.0, 2.0]), cpu_scaling="const", memory_gb=1.0, storage_read_gb=0.0))
+            arrivals.setdefault(t + rng.randint(5, 25), []).append(q)
+        t += rng.randint(180, 320)
+    params = {"duration": ticks / tps + 1e-9, "ticks_per_second": tps, "scheduler_algo": "priority", "num_pools": 1, "cpus_per_pool": cpus,
+              "ram_gb_per_pool": ram, "multi_operator_containers": True, "allow_memory_overcommit": False}
+    events, stats, exc = simrec.record_run(params, tid=tid, workload=simrec.ScriptedWorkload(arrivals), mode="obs", U=1000, sparse=True,
+                                           meta={"seed": seed, "driver": "A-long", "policy": "priority", "flavour": "long"})
+    return events
